@@ -727,7 +727,11 @@ func classifyWorkerDeath(prop, tier, stderr string, err error) (*RunResult, stri
 		tail = tail[len(tail)-6000:]
 	}
 	if len(ms) == 0 || strings.Contains(stderr, "WATCHDOG") {
-		return nil, fmt.Sprintf("worker failed: %v\n%s", err, tail)
+		head := ""
+		if i := strings.Index(stderr, "WATCHDOG property="); i >= 0 {
+			head = cut(stderr[i:], 12000) + "\n[...]\n"
+		}
+		return nil, fmt.Sprintf("worker failed: %v\n%s%s", err, head, tail)
 	}
 	seed, _ := strconv.ParseUint(ms[len(ms)-1][2], 10, 64)
 	if i := strings.Index(stderr, "fatal error: "); i >= 0 && strings.Contains(stderr[i:], "github.com/yandex/pandora") {
